@@ -67,7 +67,8 @@ Proof. exact describe_key_facts. Qed.
 Print Assumptions C02_key_facts.
 
 (* RSA: Size is the bit length of the modulus for every n, whatever its length modulo 8, in all of
-   PKCS#1 public/private, SubjectPublicKeyInfo, PKCS#8, OpenSSH public/private, PuTTY PPK, SSH1 *)
+   PKCS#1 public/private, SubjectPublicKeyInfo, PKCS#8, OpenSSH public/private, PuTTY PPK, SSH1,
+   the subject key of a certificate (CCertificate) and the primary key of an OpenPGP block (COpenPgp) *)
 Theorem C02_rsa_size : forall lib dec c n e m,
   carries c (KRsa n e) = true -> fits c (KRsa n e) m -> so_accepted lib = true ->
   attr_of "Size" (describe lib dec c (KRsa n e) m) = Some (dec_of_N (bitlen n) ++ bs " bits")
@@ -112,13 +113,53 @@ Theorem C02_explicit_prime_size : forall p name,
 Proof. exact explicit_prime_size. Qed.
 Print Assumptions C02_explicit_prime_size.
 
-(* the same key reports the same algorithm, size and curve whichever container carries it *)
+(* the same key reports the same algorithm, size and curve whichever container carries it
+   (containers include the certificate and OpenPGP carriers) *)
 Theorem C02_container_independent : forall lib1 lib2 dec1 dec2 c1 c2 k m1 m2,
   carries c1 k = true -> carries c2 k = true -> fits c1 k m1 -> fits c2 k m2 ->
   so_accepted lib1 = true -> so_accepted lib2 = true ->
   key_facts (describe lib1 dec1 c1 k m1) = key_facts (describe lib2 dec2 c2 k m2).
 Proof. exact container_independent. Qed.
 Print Assumptions C02_container_independent.
+
+(* the certificate carrier (also as a keystore entry): the "Public key" child of a certificate has exactly
+   the attributes of the same key in a PEM PUBLIC KEY block, for every kind of key; it is built from the
+   certificate's SubjectPublicKeyInfo, so it does not depend on which algorithms crypto/x509 can decode
+   (Ed448 and X448 are not among them) *)
+Theorem C02_certificate_key : forall lib dec lib' dec' k m m',
+  attrs_of_result (describe lib dec CCertificate k m) = attrs_of_result (describe lib' dec' CSpki k m')
+  /\ attrs_of_result (describe lib dec CCertificate k m) = Some (key_attrs k).
+Proof. exact certificate_like_spki. Qed.
+Print Assumptions C02_certificate_key.
+
+(* the OpenPGP carrier: an MPI declares its bit count; for a well-formed MPI that is the bit length, so
+   an RSA modulus / DSA prime of ANY length (1025, 1031, 2047, ...) is shown with its exact size *)
+Theorem C02_bitlen_pgpmpi : forall (n : N) (rest : bytes), bitlen n < 65536 ->
+  pgp_read_mpi (pgp_mpi_enc n ++ rest) = Ok (bitlen n, be_min n, rest).
+Proof. exact pgp_read_mpi_enc. Qed.
+Print Assumptions C02_bitlen_pgpmpi.
+
+Theorem C02_pgp_size : forall created n e p q g y,
+  (bitlen n < 65536 -> e < 16777216 ->
+   pgp_key_facts (pgp_rsa_body created n e) = Ok [(bs "Algorithm", bs "RSA"); (bs "Size", dec_of_N (bitlen n) ++ bs " bits")])
+  /\ (bitlen p < 65536 -> bitlen q < 65536 -> bitlen g < 65536 -> bitlen y < 65536 ->
+      pgp_key_facts (pgp_dsa_body created p q g y) = Ok [(bs "Algorithm", bs "DSA"); (bs "Size", dec_of_N (bitlen p) ++ bs " bits")]).
+Proof.
+  intros. split; intros.
+  - rewrite pgp_rsa_facts by assumption. now rewrite (proj1 pgp_names_ok).
+  - rewrite pgp_dsa_facts by assumption. now rewrite (proj1 (proj2 pgp_names_ok)).
+Qed.
+Print Assumptions C02_pgp_size.
+
+(* a reader that reports the octets read times eight (instead of the declared count) refutes it *)
+Theorem C02_pgp_size_octets_refuted :
+  bitlen (2 ^ 1024 + 1) = 1025
+  /\ pgp_key_facts_gen false (pgp_rsa_body 0 (2 ^ 1024 + 1) 65537)
+     = Ok [(bs "Algorithm", bs "RSA"); (bs "Size", bs "1032 bits")]
+  /\ pgp_key_facts (pgp_rsa_body 0 (2 ^ 1024 + 1) 65537)
+     = Ok [(bs "Algorithm", bs "RSA"); (bs "Size", bs "1025 bits")].
+Proof. exact pgp_size_octets_witness. Qed.
+Print Assumptions C02_pgp_size_octets_refuted.
 
 (* ---------- container metadata is shown as stored ---------- *)
 
@@ -260,7 +301,7 @@ Print Assumptions C02_ssh1_encrypted_refuted.
 
 Example C02_nonvacuous :
   forallb (fun c => carries c (KRsa f26_n 65537))
-    [CPkcs1Pub; CPkcs1Priv; CSpki; CPkcs8; CSshPublic; COpenSshPrivate; CPutty; CSsh1] = true
+    [CPkcs1Pub; CPkcs1Priv; CSpki; CPkcs8; CSshPublic; COpenSshPrivate; CPutty; CSsh1; CCertificate; COpenPgp] = true
   /\ (forall c, carries c (KRsa f26_n 65537) = true -> fits c (KRsa f26_n 65537) meta_enc)
   /\ carries COpenSshPrivate (KEc P384 [4; 1; 2]) = true /\ carries CPutty (KEd448 (repeat 1 57)) = true
   /\ carries CSec1 (KEc P224 [4]) = true /\ carries CSshPublic (KDsa (2 ^ 1023 + 1) 5 6 7) = true.
